@@ -452,7 +452,7 @@ class AbstractPathModelDAG(ABC):
                     )
 
         # path_length_vars[(i)] = length of path i
-        if self.encode_edge_position:
+        if self.encode_path_length:
             max_length = self.G.number_of_nodes()
             if self.length_attr is not None:
                 max_length = sum(float(self.G[u][v].get(self.length_attr, 1)) for (u,v) in self.G.edges())
